@@ -4285,12 +4285,12 @@ let obs_write r =
 let mk_buf spec =
   repeat (snd spec) (fst spec)
 
-(** val obs_roundtrip : member -> kv list **)
+(** val obs_roundtrip : member -> n -> kv list **)
 
-let obs_roundtrip m =
+let obs_roundtrip m fill =
   match m_calc m with
   | Ok n0 ->
-    let (w0, img) = m_write_into m (repeat N0 n0) in
+    let (w0, img) = m_write_into m (repeat fill n0) in
     (match w0 with
      | Ok w ->
        (match m with
@@ -4346,7 +4346,9 @@ let run_build m bufs =
     ((Ascii (true, true, false, false, true, true, true, false)),
     EmptyString)))))))))))), (OL
     (map (fun b -> obs_write (m_write_into m (mk_buf b))) bufs))) :: [])))
-    (obs_roundtrip m)
+    (obs_roundtrip m (match bufs with
+                      | [] -> N0
+                      | b :: _ -> snd b))
 
 (** val run_build_chunk : chunk_cfg -> (nat * n) list -> kv list **)
 
@@ -4605,50 +4607,60 @@ let run_hist h =
   (String ((Ascii (false, true, false, true, true, true, true, false)),
   (String ((Ascii (true, false, true, false, false, true, true, false)),
   EmptyString)))))))),
-  (obs_wres (fun x -> OI x) (m_calc m))) :: (match m_calc m with
-                                             | Ok n0 ->
-                                               ((String ((Ascii (true, true,
-                                                 true, false, true, true,
-                                                 true, false)), (String
-                                                 ((Ascii (false, true, false,
-                                                 false, true, true, true,
-                                                 false)), (String ((Ascii
-                                                 (true, false, false, true,
-                                                 false, true, true, false)),
-                                                 (String ((Ascii (false,
-                                                 false, true, false, true,
-                                                 true, true, false)), (String
-                                                 ((Ascii (true, false, true,
-                                                 false, false, true, true,
-                                                 false)), (String ((Ascii
-                                                 (true, true, false, false,
-                                                 true, true, true, false)),
-                                                 EmptyString)))))))))))), (OL
-                                                 ((obs_write
-                                                    (m_write_into m
-                                                      (repeat (Npos (XO (XI
-                                                        (XO (XI (XO (XI (XO
-                                                        XH)))))))) n0))) :: []))) :: []
-                                             | _ ->
-                                               ((String ((Ascii (true, true,
-                                                 true, false, true, true,
-                                                 true, false)), (String
-                                                 ((Ascii (false, true, false,
-                                                 false, true, true, true,
-                                                 false)), (String ((Ascii
-                                                 (true, false, false, true,
-                                                 false, true, true, false)),
-                                                 (String ((Ascii (false,
-                                                 false, true, false, true,
-                                                 true, true, false)), (String
-                                                 ((Ascii (true, false, true,
-                                                 false, false, true, true,
-                                                 false)), (String ((Ascii
-                                                 (true, true, false, false,
-                                                 true, true, true, false)),
-                                                 EmptyString)))))))))))), (OL
-                                                 ((obs_write
-                                                    (m_write_into m [])) :: []))) :: [])
+  (obs_wres (fun x -> OI x) (m_calc m))) :: (app
+                                              (match m_calc m with
+                                               | Ok n0 ->
+                                                 ((String ((Ascii (true,
+                                                   true, true, false, true,
+                                                   true, true, false)),
+                                                   (String ((Ascii (false,
+                                                   true, false, false, true,
+                                                   true, true, false)),
+                                                   (String ((Ascii (true,
+                                                   false, false, true, false,
+                                                   true, true, false)),
+                                                   (String ((Ascii (false,
+                                                   false, true, false, true,
+                                                   true, true, false)),
+                                                   (String ((Ascii (true,
+                                                   false, true, false, false,
+                                                   true, true, false)),
+                                                   (String ((Ascii (true,
+                                                   true, false, false, true,
+                                                   true, true, false)),
+                                                   EmptyString)))))))))))),
+                                                   (OL
+                                                   ((obs_write
+                                                      (m_write_into m
+                                                        (repeat (Npos (XO (XI
+                                                          (XO (XI (XO (XI (XO
+                                                          XH)))))))) n0))) :: []))) :: []
+                                               | _ ->
+                                                 ((String ((Ascii (true,
+                                                   true, true, false, true,
+                                                   true, true, false)),
+                                                   (String ((Ascii (false,
+                                                   true, false, false, true,
+                                                   true, true, false)),
+                                                   (String ((Ascii (true,
+                                                   false, false, true, false,
+                                                   true, true, false)),
+                                                   (String ((Ascii (false,
+                                                   false, true, false, true,
+                                                   true, true, false)),
+                                                   (String ((Ascii (true,
+                                                   false, true, false, false,
+                                                   true, true, false)),
+                                                   (String ((Ascii (true,
+                                                   true, false, false, true,
+                                                   true, true, false)),
+                                                   EmptyString)))))))))))),
+                                                   (OL
+                                                   ((obs_write
+                                                      (m_write_into m [])) :: []))) :: [])
+                                              (obs_roundtrip m (Npos (XO (XI
+                                                (XO (XI (XO (XI (XO
+                                                XH))))))))))
 
 (** val rfc_header : n -> n -> n -> nat -> bytes **)
 
@@ -7074,3 +7086,166 @@ let spec_build2 m =
     false, false, true, true, true, false)),
     EmptyString)))))))))))))))))))))))))))))), (OL
     (map obs_werr (violations m)))) :: []))
+
+(** val last_of : (op -> 'a1 option) -> op list -> 'a1 -> 'a1 **)
+
+let last_of sel ops default =
+  fold_left (fun acc o -> match sel o with
+                          | Some v -> v
+                          | None -> acc) ops default
+
+(** val all_of : (op -> 'a1 option) -> op list -> 'a1 list **)
+
+let all_of sel ops =
+  flat_map (fun o -> match sel o with
+                     | Some v -> v :: []
+                     | None -> []) ops
+
+(** val sel_pad : op -> n option **)
+
+let sel_pad = function
+| OPad p -> Some p
+| _ -> None
+
+(** val sel_ntp : op -> n option **)
+
+let sel_ntp = function
+| ONtp v -> Some v
+| _ -> None
+
+(** val sel_rtp : op -> n option **)
+
+let sel_rtp = function
+| ORtp v -> Some v
+| _ -> None
+
+(** val sel_pc : op -> n option **)
+
+let sel_pc = function
+| OPc v -> Some v
+| _ -> None
+
+(** val sel_oc : op -> n option **)
+
+let sel_oc = function
+| OOc v -> Some v
+| _ -> None
+
+(** val sel_rb : op -> rb_cfg option **)
+
+let sel_rb = function
+| ORb b -> Some b
+| _ -> None
+
+(** val sel_subtype : op -> n option **)
+
+let sel_subtype = function
+| OSubtype v -> Some v
+| _ -> None
+
+(** val sel_data : op -> bytes option **)
+
+let sel_data = function
+| OData d -> Some d
+| _ -> None
+
+(** val sel_src : op -> n option **)
+
+let sel_src = function
+| OSrc s -> Some s
+| _ -> None
+
+(** val sel_reason : op -> bytes option **)
+
+let sel_reason = function
+| OReason r -> Some r
+| OReasonOwned r -> Some r
+| _ -> None
+
+(** val sel_chunk : op -> chunk_cfg option **)
+
+let sel_chunk = function
+| OChunk c -> Some c
+| _ -> None
+
+(** val sel_count : op -> n option **)
+
+let sel_count = function
+| OCount v -> Some v
+| _ -> None
+
+(** val sel_sender : op -> n option **)
+
+let sel_sender = function
+| OSender v -> Some v
+| _ -> None
+
+(** val sel_media : op -> n option **)
+
+let sel_media = function
+| OMedia v -> Some v
+| _ -> None
+
+(** val final_rpsi : rpsi_op list -> fci_cfg **)
+
+let final_rpsi ops =
+  FRpsi
+    ((fold_left (fun acc o -> match o with
+                              | RPt v -> v
+                              | _ -> acc) ops N0),
+    (fold_left (fun acc o ->
+      match o with
+      | RPt _ -> acc
+      | RData (d, _) -> d
+      | RDataOwned (d, _) -> d) ops []),
+    (fold_left (fun acc o ->
+      match o with
+      | RPt _ -> acc
+      | RData (_, ov) -> ov
+      | RDataOwned (_, ov) -> ov) ops N0))
+
+(** val final_fci : fci_hist -> fci_cfg **)
+
+let final_fci = function
+| FHNack a -> FNack a
+| FHFir a -> FFir a
+| FHSli a -> FSli a
+| FHRpsi ops -> final_rpsi ops
+| FHPli -> FPli
+
+(** val final_member : hist_init -> op list -> member **)
+
+let final_member i ops =
+  match i with
+  | HSr s ->
+    MSr { sr_c_ssrc = s; sr_c_padding = (last_of sel_pad ops N0); sr_c_ntp =
+      (last_of sel_ntp ops N0); sr_c_rtp = (last_of sel_rtp ops N0);
+      sr_c_pc = (last_of sel_pc ops N0); sr_c_oc = (last_of sel_oc ops N0);
+      sr_c_blocks = (all_of sel_rb ops) }
+  | HRr s ->
+    MRr { rr_c_ssrc = s; rr_c_padding = (last_of sel_pad ops N0);
+      rr_c_blocks = (all_of sel_rb ops) }
+  | HApp (s, n0) ->
+    MApp { app_c_ssrc = s; app_c_padding = (last_of sel_pad ops N0);
+      app_c_subtype = (last_of sel_subtype ops N0); app_c_name = n0;
+      app_c_data = (last_of sel_data ops []) }
+  | HBye ->
+    MBye { bye_c_padding = (last_of sel_pad ops N0); bye_c_sources =
+      (all_of sel_src ops); bye_c_reason = (last_of sel_reason ops []) }
+  | HSdes ->
+    MSdes { sdes_c_padding = (last_of sel_pad ops N0); sdes_c_chunks =
+      (all_of sel_chunk ops) }
+  | HUnk (t, d) ->
+    MUnk { unk_c_padding = (last_of sel_pad ops N0); unk_c_type = t;
+      unk_c_count = (last_of sel_count ops N0); unk_c_data = d }
+  | HFb (k, f) ->
+    MFb { fb_c_kind = k; fb_c_padding = (last_of sel_pad ops N0);
+      fb_c_sender = (last_of sel_sender ops N0); fb_c_media =
+      (last_of sel_media ops N0); fb_c_fci = (final_fci f) }
+
+(** val final_config : hist -> member **)
+
+let final_config h =
+  match h.h_wrap with
+  | WCompound -> MCompound ((final_member h.h_init h.h_ops) :: [])
+  | _ -> final_member h.h_init h.h_ops
